@@ -43,6 +43,25 @@ Proof.
 Qed.
 Print Assumptions store_model_satisfies_C05_final.
 
+(** The same for the model's observations carrying the model's own write
+    indication (Run/R05.v: [run05], [wrote] - what C05's judge compares with
+    the device write count of the implementation): clauses 1, 2 and 3 never
+    fire - in particular an immediately repeated Get or single-digest
+    FindMissing writes nothing; what can be reported is 4, 5, 6, 7 (the
+    recorded findings F8, F10, F11, F12; Props/C05.v clause4/5/6/7_refuted
+    show that each of them is reported for some well-formed schedule). *)
+Theorem store_model_satisfies_C05_final_with_writes : forall inp,
+  let w := dec_world inp in
+  let es := dec_ops inp in
+  wf_world w = true -> wf_ops w [] es = true -> wf_tids es = true ->
+  forall z, In z (mon05 inp (run05 inp)) -> z = 4%Z \/ z = 5%Z \/ z = 6%Z \/ z = 7%Z.
+Proof.
+  intros inp w es Hw Ho Ht.
+  apply Props.C05.store_model_idempotent_C05_given_C01; [|exact Ho|exact Ht].
+  intros es' Ho' Ht' Hc. exact (proj2 (P01_no_negs w es' Hw Ho' Ht' Hc)).
+Qed.
+Print Assumptions store_model_satisfies_C05_final_with_writes.
+
 (** C08 item 5 completed with C04's fuel theorem: in every reachable state of
     a well-formed world (in particular after any number of detections), an
     upload of an object that fits a block is accepted (parks) unless the
